@@ -4,7 +4,7 @@ combinator), the dynamic builder (every node behind `Box<dyn Erased… + Send + 
 pair-builders used by the statically typed generic shapes.
 */
 
-use std::{sync::Arc, time::Duration};
+use std::{cell::RefCell, sync::Arc, time::Duration};
 
 use emit::{
     and::And,
@@ -35,9 +35,24 @@ pub struct Cx {
     pub fleaves: Vec<FLeaf>,
     pub flush_ok: Vec<bool>,
     pub nenvs: Vec<NEnv>,
+    /// the model's own count of evaluations per filter leaf (state of stateful leaves)
+    pub model_counts: RefCell<Vec<u64>>,
 }
 
 impl Cx {
+    pub fn new(fleaves: Vec<FLeaf>, flush_ok: Vec<bool>, nenvs: Vec<NEnv>) -> Cx {
+        Cx { log: Arc::new(Log::new(fleaves.len())), model_counts: RefCell::new(vec![0; fleaves.len()]), fleaves, flush_ok, nenvs }
+    }
+
+    /// Re-align the model's counters with the real ones (after a reported divergence or a
+    /// diagnostic re-evaluation) so one finding does not cascade.
+    pub fn resync(&self) {
+        let mut m = self.model_counts.borrow_mut();
+        for (i, c) in self.log.counters.iter().enumerate() {
+            m[i] = c.load(std::sync::atomic::Ordering::SeqCst);
+        }
+    }
+
     pub fn leaf_f(&self, i: usize) -> LeafF {
         LeafF { idx: i, leaf: self.fleaves[i].clone(), log: self.log.clone() }
     }
@@ -115,35 +130,72 @@ impl FTree {
 #[derive(Default, Debug)]
 pub struct Expect {
     pub deliveries: Vec<(usize, Snap)>,
-    /// every (filter leaf, event) pair a filter leaf may legitimately be shown
-    pub allowed: Vec<(usize, Snap)>,
+    /// every evaluation of a filter leaf that Rust's `&&` / `||` over the same trees makes, in
+    /// order: (leaf index, the event it is shown, its answer)
+    pub evals: Vec<(usize, Snap, bool)>,
 }
 
-/// Logical value of a filter tree on an event. Visits every leaf (no short circuit) so `allowed`
-/// covers whatever evaluation order the implementation picks.
+/// Logical value of a filter tree on an event with `&&` / `||` semantics: the right side is not
+/// evaluated when the left decides. Advances the model's leaf counters.
 pub fn feval(t: &FTree, cx: &Cx, ev: &MEvent, out: &mut Expect) -> bool {
     let snap = Snap::model(ev);
-    feval_in(t, cx, ev, &snap, out)
+    let mut counts = cx.model_counts.borrow_mut();
+    feval_in(t, &cx.fleaves, ev, &snap, &mut counts, out)
 }
 
-fn feval_in(t: &FTree, cx: &Cx, ev: &MEvent, snap: &Snap, out: &mut Expect) -> bool {
+/// The same without touching the model's state (for diagnostics and what-if questions).
+pub fn feval_pure(t: &FTree, cx: &Cx, ev: &MEvent) -> bool {
+    let snap = Snap::model(ev);
+    let mut counts = cx.model_counts.borrow().clone();
+    feval_in(t, &cx.fleaves, ev, &snap, &mut counts, &mut Expect::default())
+}
+
+fn feval_in(t: &FTree, leaves: &[FLeaf], ev: &MEvent, snap: &Snap, counts: &mut Vec<u64>, out: &mut Expect) -> bool {
     match t {
         FTree::Leaf(i, _) => {
-            out.allowed.push((*i, snap.clone()));
-            cx.fleaves[*i].eval_model(ev)
+            let a = leaves[*i].eval_model(ev, counts[*i]);
+            counts[*i] += 1;
+            out.evals.push((*i, snap.clone(), a));
+            a
         }
         FTree::Empty | FTree::Always | FTree::None => true,
-        FTree::And(a, b) => {
-            let x = feval_in(a, cx, ev, snap, out);
-            let y = feval_in(b, cx, ev, snap, out);
-            x && y
+        FTree::And(a, b) => feval_in(a, leaves, ev, snap, counts, out) && feval_in(b, leaves, ev, snap, counts, out),
+        FTree::Or(a, b) => feval_in(a, leaves, ev, snap, counts, out) || feval_in(b, leaves, ev, snap, counts, out),
+        FTree::Some(a) | FTree::Boxed(a) | FTree::Arced(a) | FTree::Ref(a) | FTree::Dyn(a) => feval_in(a, leaves, ev, snap, counts, out),
+    }
+}
+
+impl FTree {
+    pub fn contains_leaf(&self, idx: usize) -> bool {
+        match self {
+            FTree::Leaf(i, _) => *i == idx,
+            _ => self.children().iter().any(|c| c.contains_leaf(idx)),
         }
-        FTree::Or(a, b) => {
-            let x = feval_in(a, cx, ev, snap, out);
-            let y = feval_in(b, cx, ev, snap, out);
-            x || y
+    }
+
+    /// The `and` / `or` node whose left side decides on `ev` while leaf `idx` sits on its right.
+    pub fn decided_left_of(&self, idx: usize, cx: &Cx, ev: &MEvent) -> Option<&'static str> {
+        match self {
+            FTree::And(a, b) | FTree::Or(a, b) => {
+                let is_and = matches!(self, FTree::And(..));
+                if b.contains_leaf(idx) && feval_pure(a, cx, ev) != is_and {
+                    return Some(if is_and { "and" } else { "or" });
+                }
+                a.decided_left_of(idx, cx, ev).or_else(|| b.decided_left_of(idx, cx, ev))
+            }
+            _ => self.children().iter().find_map(|c| c.decided_left_of(idx, cx, ev)),
         }
-        FTree::Some(a) | FTree::Boxed(a) | FTree::Arced(a) | FTree::Ref(a) | FTree::Dyn(a) => feval_in(a, cx, ev, snap, out),
+    }
+}
+
+impl ETree {
+    pub fn filter_trees<'a>(&'a self, out: &mut Vec<&'a FTree>) {
+        if let ETree::WrapFilter(_, f, _) | ETree::Rt(_, f, _) = self {
+            out.push(f);
+        }
+        for c in self.children() {
+            c.filter_trees(out);
+        }
     }
 }
 
